@@ -598,7 +598,10 @@ func (r *run) doStep(st stepJ) error {
 			r.tr.emit(event{E: "ret", N: "close", R: "nil"})
 		}()
 	case "lisFail":
-		r.lis.failWith(errScriptedListener)
+		if st.Lis < 0 || st.Lis >= len(r.liss) {
+			return fmt.Errorf("no listener %d", st.Lis)
+		}
+		r.liss[st.Lis].failWith(errScriptedListener)
 	case "connect":
 		c := newFakeConn(st.Conn, st.Dst, st.Src, r.tr)
 		r.conns[st.Conn] = c
@@ -657,6 +660,12 @@ func (r *run) doStep(st stepJ) error {
 			return fmt.Errorf("unknown conn %q", st.Conn)
 		}
 		c.remoteSend(toBytes(st.B), st.Chunks)
+	case "stall", "unstall":
+		c := r.conns[st.Conn]
+		if c == nil {
+			return fmt.Errorf("unknown conn %q", st.Conn)
+		}
+		c.stall(st.Op == "stall")
 	case "rclose":
 		c := r.conns[st.Conn]
 		if c == nil {
